@@ -94,6 +94,27 @@ def mlp_check(net, n_in, n_out, hidden, offset, classifier, act_code):
 ACT_NAMES = {0: "sigma", 1: "relu", 2: "gauss", 3: "tanh", 4: "ln"}
 
 
+def extreme_forward(ctx, rep, net, X, nout, offset, regression, case):
+    """finite values (and normalised softmax rows) also for unscaled features and weights at the border of the
+    trained range [-10, 10]: per-sample logits spread over thousands"""
+    Xe = X.copy() * np.array([[300.0], [1.0], [-300.0]][: X.shape[0]])
+    if offset:
+        Xe[:, -1] = 1.0
+    old_w = net._weights
+    try:
+        net._weights = np.array([ctx.rng.choice([-10.0, 10.0, ctx.rng.uniform(-10, 10)]) for _ in range(len(net._connects))], dtype=np.float64)
+        out = net.forward(Xe)
+    finally:
+        net._weights = old_w
+    rep.count("forward-extreme", (case.get("desc") if isinstance(case, dict) and "desc" in case else id(net), nout))
+    bad = out.shape != (1, Xe.shape[0], nout) or not np.all(np.isfinite(out))
+    if not bad and not regression:
+        bad = bool(np.any(out < 0) or not np.allclose(out.sum(axis=2), 1.0, atol=1e-9))
+    if bad:
+        rep.problem("forward", "forward on unscaled inputs / border weights is not finite (or softmax rows are not distributions)",
+                    dict(case, X=Xe.tolist()), "forward:extreme", True, out.tolist(), None, "C13_forward_shape")
+
+
 def run(ctx, rep):
     L = N.lib()
     Net = L["Net"]
@@ -144,6 +165,7 @@ def run(ctx, rep):
         if not regression and not np.allclose(out.sum(axis=2), 1.0, atol=1e-9):
             rep.problem("forward", "softmax outputs do not sum to 1", dict(case, X=X.tolist()), "forward:softmax",
                         True, out.tolist(), None, "C13_forward_shape")
+        extreme_forward(ctx, rep, net, X, nout, offset, regression, case)
         sched = N.schedule_of(net)
         sb = N.py_sched_ok(net, sched)
         rep.count("order", key)
@@ -316,6 +338,7 @@ def run(ctx, rep):
                         if out.shape != (1, X.shape[0], n_out) or not np.all(np.isfinite(out)):
                             rep.problem("forward", f"forward output shape {out.shape} / finiteness wrong",
                                         dict(case, X=X.tolist()), "forward:shape", True, out.tolist(), None, "C13_forward_shape")
+                        extreme_forward(ctx, rep, net, X, n_out, offset, not classifier, case)
                         sched = N.schedule_of(net)
                         sb = N.py_sched_ok(net, sched)
                         if sb:
